@@ -311,6 +311,33 @@ pub fn run(ctx: &mut Ctx) {
         }
     }
 
+    // ---- 2b. integer boundaries of the header fields that enter arithmetic: MSS, window, window scale, TTL,
+    //           timestamp values (MSS + header sizes, window / MSS, window << scale, TTL distance): a grid of the
+    //           extreme and near-extreme values, IPv4 and IPv6, SYN and SYN+ACK (seeded change C01d-3: an unchecked
+    //           `mss + 40` only overflows from MSS 65496 with a window no earlier pattern explains)
+    {
+        let msss: &[u16] = if ctx.tier == crate::Tier::Quick { &[0, 1, 536, 1460, 65475, 65476, 65495, 65496, 65535] } else { &[0, 1, 2, 535, 536, 1459, 1460, 9000, 32767, 32768, 65474, 65475, 65476, 65494, 65495, 65496, 65497, 65534, 65535] };
+        let wins: &[u16] = &[0, 1, 1460, 5840, 32768, 65533, 65534, 65535];
+        let wss: &[u8] = &[0, 7, 14, 15, 255];
+        for &v6 in &[false, true] {
+            for &mss in msss {
+                for &win in wins {
+                    for &ws in wss {
+                        for flags in [SYN, SYN | ACK] {
+                            let (a, b) = if v6 { (net::v6(0x2001_0db8_0000_0000_0000_0000_0000_0001), net::v6(0x2001_0db8_0000_0000_0000_0000_0000_0002)) } else { (net::v4(0x0a00_0001), net::v4(0x0a00_0002)) };
+                            let mut s = Seg::new((a, 40000), (b, 80), flags);
+                            s.window = win;
+                            s.ttl = [0u8, 1, 64, 255][(mss as usize + win as usize + ws as usize) % 4];
+                            s.options = Seg::syn_options(mss, ws, if (mss ^ win) & 1 == 0 { Some(u32::MAX - (win as u32)) } else { None });
+                            let f = net::eth_bytes(&s);
+                            do_frame(ctx, &mut pers, &f, "intgrid", &mut probe_idx, &mut since_probe, &mut r);
+                        }
+                    }
+                }
+            }
+        }
+    }
+
     // ---- 3. every truncation and many single-bit corruptions of capture frames and synthesised frames
     let mut base: Vec<Vec<u8>> = vec![];
     for p in ["http-simple-get.pcap", "macos_tcp_flags.pcap", "tls-alpn-h2.pcap", "tls12.pcap"] {
